@@ -232,6 +232,11 @@ def run(ctx):
                 add(A.run_ma_disc(zoo, alg, groups, training=bool(e), variant="composed"))
             o3 = [x for x in r3 if all(mm == 1 for mm in x["mask"])]
             o4 = [x for x in r4 if all(mm == 1 for mm in x["mask"])]
+            # one agent restricted by a mask, the other free and handing over NO mask (empty info): the mask still applies
+            mm_ = min(len(r3), len(o4)) // K * K
+            for i in range(0, min(mm_, 2 * K if quick else mm_), K):
+                groups = [A.dgroup([3], False, r3[i:i + K]), A.dgroup([4], False, o4[i:i + K])]
+                add(A.run_ma_disc(zoo, alg, groups, training=bool(e), variant="composed+sparse", with_mask="sparse"))
             m = min(len(o3), len(o4)) // K * K
             for i in range(0, m, K):
                 groups = [A.dgroup([3], False, o3[i:i + K]), A.dgroup([4], False, o4[i:i + K])]
